@@ -17,11 +17,18 @@ Per run (this file):
     the circuit was built (gate.parameters = ..., Circuit.set_parameters) and before fuse / light_cone; the gates
     of the light-cone circuit must carry the CURRENT parameters and matrices, the fused circuit must consist of
     the very gate objects of the input, and the exact executions run on the updated values;
+  * added after round 4 (harness/c07_occ.py; gates identified by queue POSITION): the same object at several positions
+    (plain / parametrised gate, Unitary, FusedGate from an earlier real fuse and its members, CallbackGate, collapsing M),
+    measurements with every option (basis Z/X/Y/mixed, collapse, register names, p0/p1, density matrices) under
+    fuse(1..3) and light_cone, and histories fuse -> execute -> update through source / gate / fused / shallow copy ->
+    execute, re-fuse, add gates -- each execution compared with freshly built circuits; Coq side: C07/Occ.v,
+    C07/PropsOcc.v (occurrences are positions; every occurrence is emitted once; faithful model of the re-added basis
+    rotations of light_cone and its refutation);
   * semantic cross-check ("test"): original and fused circuit are executed by the real numpy
     backend on Gaussian-integer data (exact), light-cone circuits on signed-permutation unitaries
     with integer product states, reduced density matrices compared as integers.
 """
-STATIC = ["C07/Props"]
+STATIC = ["C07/Props", "C07/PropsOcc"]
 import itertools
 import json
 import random
@@ -99,7 +106,15 @@ def make_gate(desc, mode, rng):
     from qibo import gates, callbacks
     kind, q = desc["kind"], list(desc["q"])
     if kind == "M":
-        return gates.M(*q, collapse=bool(desc.get("collapse", False)), register_name=desc.get("reg"))
+        kw = {}
+        if desc.get("basis") is not None:        # a name or a list of names (one per measured qubit)
+            b = desc["basis"]
+            kw["basis"] = getattr(gates, b) if isinstance(b, str) else [getattr(gates, x) for x in b]
+        for key in ("p0", "p1"):
+            if desc.get(key) is not None:
+                v = desc[key]
+                kw[key] = {int(a): float(p) for a, p in v.items()} if isinstance(v, dict) else v
+        return gates.M(*q, collapse=bool(desc.get("collapse", False)), register_name=desc.get("reg"), **kw)
     if kind == "cb":
         return gates.CallbackGate(callbacks.Norm())
     if kind == "ch":
@@ -912,15 +927,19 @@ def refuse_check(run):
 
 
 def static_obligations(run):
-    ths = vcore.props_theorems("C07/Props.v")
-    ok, pa = vcore.static_assumptions("C07/Props")
-    for t in ths:
-        run.oblige(f"C07/Props.{t}", ok and t in pa, "theorem")
-        if ok and t in pa and not pa[t].startswith("Closed"):
-            run.axioms.add(f"{t}: {pa[t]}")
-        if t.endswith("_partial"):
-            run.not_proved.append(f"{t} is a partial result (see comment in C07/Props.v)")
-    run.notes["print_assumptions"] = pa
+    run.notes["print_assumptions"] = {}
+    for th in ("C07/Props", "C07/PropsOcc"):
+        ths = vcore.props_theorems(th + ".v")
+        ok, pa = vcore.static_assumptions(th)
+        for t in ths:
+            run.oblige(f"{th}.{t}", ok and t in pa, "theorem")
+            if ok and t in pa and not pa[t].startswith("Closed"):
+                run.axioms.add(f"{t}: {pa[t]}")
+            if t.endswith("_partial"):
+                run.not_proved.append(f"{t} is a partial result (see comment in {th}.v)")
+            if t.endswith("_refuted"):
+                run.refuted.append(f"{th}.{t[:-8]} (the faithful model of the real code violates it; witness in the theorem)")
+        run.notes["print_assumptions"].update(pa)
     run.not_proved += [
         "light cone: dropped non-unitary operations (collapsing measurements, channels) are outside the matrix-level "
         "theorem; the abstract light_cone_reduced_state covers them given its premise",
@@ -937,7 +956,9 @@ def main(run):
                     "abstraction of a gate to (identity, gate.qubits, kind in {ordinary, M, special}) done by this harness",
                     "Base/Sem.v, SemPtrace.v, SemProps.v and C01/Spec.v (matrix semantics: gate_op, circ_op, sandwich, reduced; "
                     "gate_op_disjoint_commute and ptrace_ignores_outside are proved there, closed) used by C07/InstMat.v",
-                    "harness/c07.py observation code (wraps _Queue.from_fused and Gate.on_qubits at run time)"]
+                    "harness/c07.py observation code (wraps _Queue.from_fused and Gate.on_qubits at run time)",
+                    "harness/c07_occ.py: matching of output occurrences of one object to input positions in order of appearance "
+                    "(occurrences of one object are equal dependent letters: any other matching gives the same operator)"]
     run.assumptions += ["noise channels are ordinary letters for fusion (the implementation may absorb them into a group, whose "
                         "execution then refuses); they take part in the structural comparison and the certificate, not in "
                         "the execution test nor in the light-cone stream (Channel.on_qubits is not implemented)",
@@ -950,6 +971,10 @@ def main(run):
     run_fuse(run, rng, 520 if quick else 5200, n_exec=100 if quick else 1000)
     run_light_cone(run, rng, 200 if quick else 2000, n_exec=60 if quick else 600)
     refuse_check(run)
+    from harness import c07_occ
+    c07_occ.run_fuse2(run, random.Random(run.seed * 1000003 + 1))
+    c07_occ.run_lc2(run, random.Random(run.seed * 1000003 + 2))
+    c07_occ.run_hist(run, random.Random(run.seed * 1000003 + 3))
     if not quick:
         rc, out = vcore.sh("timeout 1500 coqchk -o -silent -Q theories QV QV.C07.Props", timeout=1600, cwd=vcore.COQ)
         run.checker_cmds.append("coqchk -o -silent -Q theories QV QV.C07.Props")
@@ -964,7 +989,15 @@ def main(run):
         "current values: parameter and matrix equality per gate, exact execution), adversarial "
         "(non-commuting gates between fusion partners), dense and brickwork circuits; max_qubits 0..n+1; light-cone "
         "subsets of size 0..3; a fuse case is non-trivial if the circuit has >=3 gates and at least one fused group is "
-        "formed, a light-cone case if some but not all gates are kept; distinct by (n, k or S, gate list)"))
+        "formed, a light-cone case if some but not all gates are kept; distinct by (n, k or S, gate list); "
+        "c07_occ streams: deterministic corpus first, then random -- occ: base generators + 1-4 repeated occurrences of "
+        "objects (ord/cb/FusedGate from a real fuse/its members/collapsing M), n<=6; meas: n<=5, 2-9 items, M with basis "
+        "X/Y/Z/mixed lists, collapse, register names, p0/p1 float/list/dict, mid-circuit and final, 15% density-matrix "
+        "circuits, fuse(1..3) and light_cone subsets biased to measured qubits; hist: n=2..4, 4-9 parametrised gates "
+        "(integer Unitary or float rotations), 3-7 operations from {exec fused/source, update via source list/dict, gate "
+        "setter, fused list, shallow copy list, refuse, fuse again, add to source, add to fused, unitary}; a fuse2 case is "
+        "non-trivial if a group is formed and the circuit has a repeated object / a basis rotation / a collapse, a "
+        "history if it contains an update"))
 
 
 def replay(run, data):
@@ -973,6 +1006,9 @@ def replay(run, data):
     mech = r.get("mechanism")
     if mech == "refuse":
         refuse_check(run)
+    elif mech in ("fuse2", "lc2", "hist"):
+        from harness import c07_occ
+        c07_occ.replay_case(run, data)
     elif mech in ("fuse", "fuse-exec"):
         n, descs, k = r["nqubits"], r["descs"], r["max_qubits"]
         run.case({"fuse": [n, k, descs]})
